@@ -15,7 +15,7 @@ func init() {
 		ID:          "C03",
 		Explanation: "Decided (shape of the channel runtime and of its translation): (translate) send/receive/select/close/go/make/len/cap map to the matching prelude entry points and the select argument encoding (arrays of length 0/1/2) agrees with $select's dispatch; (pair) every enqueue on a channel wait queue is followed on all paths by $block() and the return of a continuation object, every queued closure reschedules the captured goroutine on all normal paths, and in $select every enqueue is registered for removal and every queued closure deregisters all entries before rescheduling; (fifo) buffers and wait queues are only appended with push and consumed with shift; (close) $close rejects the nil channel, marks the channel closed and drains both wait queues, $send and $select test for closed channels before enqueueing; (runtime) Gosched/Goexit/NumGoroutine reference existing prelude state. NOT decided: rendezvous/FIFO semantics under interleavings, fairness, deadlock detection exactness, timers — these quantify over schedules.",
 		Assumptions: []string{"JavaScript arrays used as queues preserve push/shift order"},
-		Rules:       []RuleFunc{ruleC03Translate, ruleC03Pair, ruleC03Fifo, ruleC03Close, ruleC03Runtime, ruleC03Flow, ruleC03Wakers, ruleC03Deadlock, ruleC07Contexts},
+		Rules:       []RuleFunc{ruleC03Translate, ruleC03Pair, ruleC03Fifo, ruleC03Close, ruleC03Runtime, ruleC03Flow, ruleC03Wakers, ruleC03Deadlock, ruleC07Contexts, ruleC03ShiftedIsRun},
 	})
 }
 
